@@ -13,3 +13,5 @@ done
 # the generated constants file is shared: put back the one that describes /repo
 unset VERIF_REPO
 python3 tools/gen_constants.py >/dev/null 2>&1 || echo "WARNING: gen_constants on /repo failed"
+python3 tools/gen_checksum.py >/dev/null 2>&1 || echo "WARNING: gen_checksum on /repo failed"
+python3 tools/gen_logic.py >/dev/null 2>&1 || echo "WARNING: gen_logic on /repo failed"
